@@ -143,14 +143,24 @@ theorem SimM.castR {W : World} {M : Msl.MWorld} {env : Ast.Env} {e : Ir.Expr} {a
       simp only [Msl.castR, Spec.Sem.castR, Msl.castM, mTy, hl', hT', ht, hp, if_false, Bool.false_eq_true, false_and]
       cases castVal W.P T r.fst <;> rfl
 
-theorem literal_arms_eq : mslLiteralArms = literalArms := by decide
+/-- the Metal arm for a row of the HLSL literal table: the same row, except that a `Float64` constant — Metal has neither
+`double` nor `long double` — is refused with `Err(GenerateError::UnsupportedDouble)` (fix 9824ce3; before, the Metal
+function emitted `Literal::Float64`, which the Metal printer could not print) -/
+def mslArmOf (a : ConstKind × LitGuard × LitArm) : ConstKind × LitGuard × LitArm :=
+  if a.1 = .Float64 then (a.1, a.2.1, .errs "UnsupportedDouble") else a
 
-theorem findArm_eq (k : ConstKind) (v : Int) : GenMsl.findArm k v = GenHlsl.findArm k v := by
-  simp [GenMsl.findArm, GenHlsl.findArm, literal_arms_eq]
+theorem literal_arms_eq : mslLiteralArms = literalArms.map mslArmOf := by decide
+
+theorem findArm_eq (k : ConstKind) (v : Int) (hk : k ≠ .Float64) : GenMsl.findArm k v = GenHlsl.findArm k v := by
+  cases k <;> first | exact absurd rfl hk | rfl
+
+theorem findArm_float64 (v : Int) : GenMsl.findArm .Float64 v = some (.errs "UnsupportedDouble") := rfl
+
+theorem kind_ne_float64 (c : Ir.Const) : c.kind ≠ ConstKind.Float64 := by cases c <;> simp [Ir.Const.kind]
 
 theorem genLiteral_eq (c : Ir.Const) : GenMsl.genLiteral c = GenHlsl.genLiteral c := by
   unfold GenMsl.genLiteral GenHlsl.genLiteral
-  rw [findArm_eq]
+  rw [findArm_eq _ _ (kind_ne_float64 c)]
   cases GenHlsl.findArm c.kind (GenHlsl.Const.intValue c) with
   | none => rfl
   | some arm =>
